@@ -406,6 +406,12 @@ func modelBatches(tier string) {
 	}
 	hb.WriteString(" FROM t")
 	heavy := hb.String()
+	var uniform []stmts.Stmt
+	for i, g := range good {
+		if tier == "thorough" || (i+int(run.Seed))%3 == 0 {
+			uniform = append(uniform, g)
+		}
+	}
 	for bi, line := range r.Cases {
 		var c struct {
 			Batch  []string `json:"batch"`
@@ -416,12 +422,18 @@ func modelBatches(tier string) {
 		if err := json.Unmarshal([]byte(line), &c); err != nil {
 			core.Fatalf("bad batch case %q: %v", line, err)
 		}
-		for rep := 0; rep < reps; rep++ {
+		nrep := reps
+		if len(c.Batch) > 0 && c.Batch[0] == "same" {
+			nrep = len(uniform) // a uniform batch of every accepted statement of the pool (quick: a rotating third)
+		}
+		for rep := 0; rep < nrep; rep++ {
 			qs := make([]string, len(c.Batch))
 			for i, cl := range c.Batch {
 				switch cl {
 				case "ok":
 					qs[i] = good[(bi+rep*7+i)%len(good)].SQL
+				case "same":
+					qs[i] = uniform[rep].SQL
 				case "heavy":
 					qs[i] = heavy
 				case "syntax":
@@ -474,7 +486,7 @@ func modelBatches(tier string) {
 					fail("batch-tree-count", len(trees), len(qs))
 				} else {
 					for i, t := range trees {
-						if i == 0 && len(qs[0]) > 10000 {
+						if i == 0 && len(qs[0]) > 10000 || c.Batch[0] == "same" && i > 0 && i < len(trees)-1 {
 							continue
 						}
 						ind, ierr := gosqlx.Parse(qs[i])
